@@ -57,7 +57,8 @@ def handlers : List (List String → Option String) := [
   Knut.Driver.C02.handle,
   Knut.Driver.GoSemFmt.handle,
   Knut.Driver.GoSemBean.handle,
-  Knut.Driver.GoSemFloat.handle
+  Knut.Driver.GoSemFloat.handle,
+  Knut.Driver.GoSemTable.handle
 ]
 
 def handle (fields : List String) : String :=
